@@ -30,6 +30,9 @@ var (
 	prRe   = regexp.MustCompile(`(?im)^[a-z\d.\-@()/:]{1,48}[#>$]\s*$`)
 )
 
+// trailing output: after admitting us the device goes on printing (a log line and the prompt again)
+const trailText = "\n%SYS-5-LOGIN: admin logged in on vty0\n" + shell
+
 type dlg struct {
 	kind     string // telnet | telnet-passonly | ssh | ssh-nc
 	banner   int    // 0 none, 1 motd, 2 "Last login"
@@ -41,10 +44,15 @@ type dlg struct {
 	errWhere int // 0 before anything, 1 after the banner
 	maxChunk int
 	env      int
+	trail    bool // the device prints trailText right after the first shell prompt
 }
 
 func (d dlg) name() string {
-	return fmt.Sprintf("%s/banner=%d/user=%d/pass=%d/rej=%d/pp=%d/err=%d.%d/chunk=%d/env=%d", d.kind, d.banner, d.userSp, d.passSp, d.rLogin, d.rPP, d.errLine, d.errWhere, d.maxChunk, d.env)
+	n := fmt.Sprintf("%s/banner=%d/user=%d/pass=%d/rej=%d/pp=%d/err=%d.%d/chunk=%d/env=%d", d.kind, d.banner, d.userSp, d.passSp, d.rLogin, d.rPP, d.errLine, d.errWhere, d.maxChunk, d.env)
+	if d.trail {
+		n += "/trail"
+	}
+	return n
 }
 
 var userSpellings = []string{"Username: ", "login: ", "router login: "}
@@ -78,6 +86,9 @@ func build(s dlg) *dev.CLIDevice {
 			return dev.Reply{Raw: &h, Next: "netconf"}
 		}
 		out := welcome + shell
+		if s.trail {
+			out += trailText
+		}
 		return dev.Reply{Raw: &out, Next: "shell"}
 	}
 	var modes []*dev.Mode
@@ -216,6 +227,7 @@ func runDlg(w *sched.W, s dlg, hangAt int) (sentAtOpenEnd int) {
 			}
 			var openErr, setupErr, promptErr error
 			var gotPrompt string
+			var rest []byte
 			var caps []string
 			var t0, t1 time.Duration
 			e.Go("client", func() {
@@ -243,7 +255,11 @@ func runDlg(w *sched.W, s dlg, hangAt int) (sentAtOpenEnd int) {
 				openErr = g.Open()
 				t1 = e.Now()
 				sentAtOpenEnd = tr.Sent()
-				if openErr == nil && hangAt < 0 {
+				if openErr == nil && hangAt < 0 && s.trail {
+					// everything read during login and everything that arrived since, in the order the device sent it
+					time.Sleep(10 * cm.Ms)
+					rest, promptErr = g.Channel.ReadAll()
+				} else if openErr == nil && hangAt < 0 {
 					gotPrompt, promptErr = g.GetPrompt()
 				}
 			})
@@ -318,6 +334,11 @@ func runDlg(w *sched.W, s dlg, hangAt int) (sentAtOpenEnd int) {
 						if len(caps) != 1 || caps[0] != dev.Cap10 {
 							e.Violate("c10:login-bytes-lost", "server hello read during login was not available to the capability exchange: caps=%v", caps)
 						}
+					} else if s.trail {
+						stream := strings.ReplaceAll(string(tr.AllOut), "\r", "")
+						if promptErr != nil || len(rest) == 0 || !strings.HasSuffix(stream, string(rest)) || !strings.Contains(string(rest), shell+trailText) {
+							e.Violate("c10:login-bytes-out-of-order", "after Open the channel holds %q (err %v): not the tail of what the device sent (%q)", rest, promptErr, stream)
+						}
 					} else if promptErr != nil || strings.TrimSpace(gotPrompt) != shell {
 						e.Violate("c10:first-getprompt", "GetPrompt after login: %q, %v", gotPrompt, promptErr)
 					}
@@ -363,7 +384,7 @@ func scenarios(tier string) []sched.Scenario {
 				for p := range passSpellings {
 					for r := 0; r <= 3; r++ {
 						for _, mc := range presets {
-							out = append(out, scenario(dlg{kind, b, u, p, r, -1, -1, 0, mc, envOf(mc)}))
+							out = append(out, scenario(dlg{kind, b, u, p, r, -1, -1, 0, mc, envOf(mc), false}))
 						}
 					}
 				}
@@ -379,7 +400,7 @@ func scenarios(tier string) []sched.Scenario {
 							continue
 						}
 						for _, mc := range presets {
-							out = append(out, scenario(dlg{kind, b, 0, p, r, pp, -1, 0, mc, envOf(mc)}))
+							out = append(out, scenario(dlg{kind, b, 0, p, r, pp, -1, 0, mc, envOf(mc), false}))
 						}
 					}
 				}
@@ -389,20 +410,27 @@ func scenarios(tier string) []sched.Scenario {
 	for ei := range sshErrors {
 		for _, where := range []int{0, 1} {
 			for _, mc := range presets {
-				out = append(out, scenario(dlg{"ssh", 1, 0, 2, 0, -1, ei, where, mc, envOf(mc)}))
+				out = append(out, scenario(dlg{"ssh", 1, 0, 2, 0, -1, ei, where, mc, envOf(mc), false}))
 			}
+		}
+	}
+	// the device keeps printing after it admitted us: the channel hands everything over in order
+	for _, mc := range presets {
+		for _, k := range []dlg{{"telnet", 1, 0, 0, 0, -1, -1, 0, mc, envOf(mc), true}, {"telnet", 0, 1, 1, 1, -1, -1, 0, mc, envOf(mc), true},
+			{"telnet-passonly", 0, 0, 0, 0, -1, -1, 0, mc, envOf(mc), true}, {"ssh", 2, 0, 2, 1, 1, -1, 0, mc, envOf(mc), true}, {"ssh", 0, 0, 0, 0, -1, -1, 0, mc, envOf(mc), true}} {
+			out = append(out, scenario(k))
 		}
 	}
 	// the peer hangs up at every point of the dialogue
 	for _, mc := range []int{0, 7} {
 		out = append(out,
-			hangScenario(dlg{"telnet", 1, 0, 0, 1, -1, -1, 0, mc, 0}),
-			hangScenario(dlg{"telnet", 0, 1, 1, 3, -1, -1, 0, mc, 0}),
-			hangScenario(dlg{"telnet-passonly", 0, 0, 0, 0, -1, -1, 0, mc, 0}),
-			hangScenario(dlg{"ssh", 2, 0, 2, 1, 1, -1, 0, mc, 0}),
-			hangScenario(dlg{"ssh-nc", 0, 0, 2, 0, -1, -1, 0, mc, 0}),
-			hangScenario(dlg{"ssh", 1, 0, 2, 0, -1, 3, 1, mc, 0}),
-			hangScenario(dlg{"ssh", 1, 0, 2, 0, -1, 10, 0, mc, 0}),
+			hangScenario(dlg{"telnet", 1, 0, 0, 1, -1, -1, 0, mc, 0, false}),
+			hangScenario(dlg{"telnet", 0, 1, 1, 3, -1, -1, 0, mc, 0, false}),
+			hangScenario(dlg{"telnet-passonly", 0, 0, 0, 0, -1, -1, 0, mc, 0, false}),
+			hangScenario(dlg{"ssh", 2, 0, 2, 1, 1, -1, 0, mc, 0, false}),
+			hangScenario(dlg{"ssh-nc", 0, 0, 2, 0, -1, -1, 0, mc, 0, false}),
+			hangScenario(dlg{"ssh", 1, 0, 2, 0, -1, 3, 1, mc, 0, false}),
+			hangScenario(dlg{"ssh", 1, 0, 2, 0, -1, 10, 0, mc, 0, false}),
 		)
 	}
 	return out
